@@ -74,7 +74,72 @@ def run_pair(ops_path):
         raise BuildError("harness run failed rc=%d: %s" % (ri.returncode, ri.stderr[-2000:]))
     if rm.returncode != 0:
         raise BuildError("model run failed rc=%d: %s" % (rm.returncode, rm.stderr[-2000:]))
+    try:  # the implementation's transcript is kept for the model's `inv` / `stepfrom` modes
+        open(ops_path + ".impl", "w").write(ri.stdout)
+    except Exception:
+        pass
     return canon.parse_transcript(ri.stdout), canon.parse_transcript(rm.stdout)
+
+
+def model_has_load_modes():
+    """does the compiled driver know `inv` and `stepfrom` (Irc/Load.lean)?"""
+    if not hasattr(model_has_load_modes, "v"):
+        try:
+            r = sh([MODEL, "inv", "/dev/null"], timeout=30)
+            model_has_load_modes.v = (r.returncode == 0 and "unknown" not in (r.stdout + r.stderr).lower())
+        except Exception:
+            model_has_load_modes.v = False
+    return model_has_load_modes.v
+
+
+def run_inv(ops_path):
+    """the Lean invariant's executable twin (`invCheck`) evaluated on the IMPLEMENTATION's dumped states:
+    {sequence name: [(op index, [violated clauses])]}"""
+    r = sh([MODEL, "inv", ops_path + ".impl"], timeout=1800)
+    if r.returncode != 0:
+        raise BuildError("model inv failed rc=%d: %s" % (r.returncode, r.stderr[-1000:]))
+    res, n = {}, 0
+    for l in r.stdout.split("\n"):
+        t = l.split(" ")
+        if len(t) >= 4 and t[0] == "inv":
+            n += 1
+            if t[3] == "FAIL":
+                res.setdefault(t[1], []).append((int(t[2]), t[4:]))
+    return res, n
+
+
+def run_stepfrom(ops_path):
+    """every operation recomputed by the model FROM THE IMPLEMENTATION'S previous state (no cut at the first divergence)"""
+    r = sh([MODEL, "stepfrom", ops_path, ops_path + ".impl"], timeout=1800)
+    if r.returncode != 0:
+        raise BuildError("model stepfrom failed rc=%d: %s" % (r.returncode, r.stderr[-1000:]))
+    return canon.parse_transcript(r.stdout)
+
+
+def compare_steps(pid, si, ss, start):
+    """operations after `start`: first one whose implementation outcome differs, inside the footprint of `pid`, from the
+    model's step taken from the implementation's own previous state; returns (op index, diffs) or None"""
+    prev = None
+    sops = {o.k: o for o in ss.ops}
+    for oi in si.ops:
+        if oi.k <= start:
+            prev = oi
+            continue
+        om = sops.get(oi.k)
+        if om is None:
+            break
+        if canon.diff_ops(oi, om):
+            if in_footprint(pid, oi, prev):
+                pd = projected_diff(pid, oi, om)
+                if pd:
+                    return oi.k, pd
+            if P[pid].get("st_any"):
+                ci, cm = canon.canon_op(oi), canon.canon_op(om)
+                a, b = P[pid]["st_any"](ci[2]), P[pid]["st_any"](cm[2])
+                if a != b:
+                    return oi.k, [("state", sorted(set(a) - set(b)), sorted(set(b) - set(a)))]
+        prev = oi
+    return None
 
 
 def op_kind(optext):
